@@ -287,7 +287,7 @@ def ref_typeof(v):
     if k == "ext":
         return v["t"]
     if k == "function":
-        return {"k": "fn", "i": v["i"], "o": v["o"], "reqs": []}
+        return {"k": "fn", "i": v["i"], "o": v["o"], "reqs": list(v.get("reqs", []))}
     raise ValueError(k)
 
 
@@ -333,7 +333,7 @@ def enc_value(v):
     if k == "ext":
         return _custom(v["name"], v["t"], v["payload"], list(v["exts"]))
     if k == "function":
-        sig = {"t": "G", "input": enc_row(v["i"]), "output": enc_row(v["o"]), "runtime_reqs": []}
+        sig = {"t": "G", "input": enc_row(v["i"]), "output": enc_row(v["o"]), "runtime_reqs": list(v.get("reqs", []))}
         return {
             "v": "Function",
             "hugr": {
